@@ -456,7 +456,7 @@ func TestC13_Resolve(t *testing.T) {
 }
 
 func TestC13_Invalid(t *testing.T) {
-	ev := NewEv(t, "C13", "invalid", "a valid generated preamble with one injected fault: reference to an undefined variable, a directly self-referential value, an undefined variable in the attachment only, a second '=' of the same name (each must make Resolve return an error, not panic, and the reference parser must reject the same text), or an append placed before its definition (no-panic probe only). Non-trivial: every case; distinct by text")
+	ev := NewEv(t, "C13", "invalid", "a valid generated preamble with one injected fault: reference to an undefined variable, a directly self-referential value, an undefined variable in the attachment only (in half of these the preamble defines no variable at all), a second '=' of the same name (each must make Resolve return an error, not panic, and the reference parser must reject the same text), or an append placed before its definition (no-panic probe only). Non-trivial: every case; distinct by text")
 	n := 0
 	rapid.Check(t, func(t *rapid.T) {
 		c := genC13Case(t)
@@ -478,6 +478,16 @@ func TestC13_Invalid(t *testing.T) {
 			// the undefined variable only shows in the profile's attachment (the first one: the
 			// reference parser is shown a single attachment)
 			c.Attachments = append([]string{"/opt/@{nope}/x"}, c.Attachments...)
+			if rapid.Bool().Draw(t, "novars") {
+				// a preamble that defines nothing at all (comments, abi, includes only)
+				var nl []C13Line
+				for _, x := range c.Lines {
+					if x.Kind != "var" {
+						nl = append(nl, x)
+					}
+				}
+				c.Lines = nl
+			}
 		case "selfref":
 			l.Values[0] = "@{" + l.Name + "}/self"
 		case "redefine":
